@@ -15,7 +15,8 @@
 #include <soundswallower/s3file.h>
 
 static logmath_t *lmath;
-static const char *const WORDS[4] = { "a", "b", "<sil>", "a(2)" };
+/* the two words differ only in case: a vocabulary is case-sensitive, in memory and in files */
+static const char *const WORDS[4] = { "a", "A", "<sil>", "a(2)" };
 static const double PROBS[3] = { 1.0, 0.5, 1e-8 };
 #define LMAX 4
 #define NSTR 31 /* strings over {a,b} of length <= 4 */
